@@ -1,0 +1,10 @@
+//go:build verif
+
+package ysgo
+
+import "time"
+
+// VerifSecondsToDuration exposes the duration arithmetic of the built-in wait command to the verification harness.
+func VerifSecondsToDuration(seconds float64) time.Duration {
+	return secondsToDuration(seconds)
+}
